@@ -171,6 +171,21 @@ inline bool contains_at(const std::string& hay, size_t pos, const std::string& n
     return pos + needle.size() <= hay.size() && hay.compare(pos, needle.size(), needle) == 0;
 }
 
+// ---- reference definitions and generators shared by the TUs (defined in C19_helpers.cpp / C19_codec.cpp) -----------------
+extern const std::string ALPHA; //!< letters of both cases, their ASCII neighbours, whitespace, NUL, bytes >= 0x80
+unsigned char ref_lower(unsigned char c);
+unsigned char ref_upper(unsigned char c);
+std::string ref_lower(std::string s);
+std::string ref_upper(std::string s);
+int ref_compare_icase(const std::string& a, const std::string& b);
+std::string ref_replace(const std::string& str, const std::string& needle, const std::string& instead, bool all);
+std::string ref_trim(const std::string& s, const std::string& drop, bool left, bool right);
+size_t ref_levenshtein(const std::string& a, const std::string& b, bool icase);
+std::string flip_case(std::string s, pbt::Source& src);
+std::string gen_related(pbt::Source& src, const std::string& hay, const std::string& alphabet, size_t maxlen, size_t cap = 5000);
+std::string ref_base64(const std::string& in);
+std::string ref_hex(const std::string& in, bool upper);
+
 } // namespace c19
 
 // the property bodies (one per TU); C19_main.cpp registers them as targets
